@@ -192,3 +192,28 @@ pub fn run(rec: &J) -> Outcome {
         }
     }
 }
+
+/// `in | name` evaluated on the real parser, result returned as a value
+/// (through the `__dump` text, decoded again).
+pub fn eval_structural(name: &str, input: &Value) -> Result<Value, String> {
+    let mut globals = liquid::Object::new();
+    globals.insert("in".into(), input.clone());
+    let src = format!("{{{{ in | {name} | __dump }}}}");
+    let t = PARSER.with(|p| p.parse(&src)).map_err(|e| e.to_string())?;
+    let text = t.render(&globals).map_err(|e| e.to_string())?;
+    let j: J = serde_json::from_str(&text).map_err(|e| e.to_string())?;
+    dumped_to_value(&j)
+}
+
+fn dumped_to_value(j: &J) -> Result<Value, String> {
+    match j["k"].as_str().unwrap_or("") {
+        "float" => {
+            let num: f64 = j["num"].as_str().unwrap_or("0").parse().unwrap_or(0.0);
+            let e = j["e"].as_u64().unwrap_or(0);
+            let shl = j.get("shl").and_then(|x| x.as_u64()).unwrap_or(0);
+            Ok(Value::scalar(num * (2f64).powi(shl as i32) / (2f64).powi(e as i32)))
+        }
+        "arr" => Ok(Value::Array(j["a"].as_array().unwrap_or(&Vec::new()).iter().map(dumped_to_value).collect::<Result<Vec<_>, _>>()?)),
+        _ => dec_value(j),
+    }
+}
